@@ -61,13 +61,36 @@ pub fn make_case(prop: &str, stmts: &[P], event: &Value, check_vars: &[&str], sk
     }))
 }
 
+thread_local! {
+    static REJECTIONS: std::cell::RefCell<BTreeMap<String, String>> = const { std::cell::RefCell::new(BTreeMap::new()) };
+}
+
+/// "rejected-by-compiler:<first diagnostic code>" (so that the evidence shows WHY programs were skipped: a
+/// syntax error would mean the printer, not the type checker, removed them).
+fn rejection_class(src: &str) -> String {
+    REJECTIONS.with(|r| {
+        if let Some(c) = r.borrow().get(src) {
+            return c.clone();
+        }
+        let why = law::why_rejected(src);
+        let code = why.trim_start_matches("rejected: ").split(':').next().unwrap_or("?").to_string();
+        let c = format!("rejected-by-compiler:{code}");
+        let mut m = r.borrow_mut();
+        if m.len() > 100_000 {
+            m.clear();
+        }
+        m.insert(src.to_string(), c.clone());
+        c
+    })
+}
+
 /// Execute one witness against the real code and compare with the embedded expectation.
 pub fn case(w: &J) -> CaseResult {
     let prop = w["property"].as_str().unwrap_or("C06").to_string();
     let src = w["program"].as_str().unwrap_or("");
     let event = vv::dec(&w["event"]);
     let exp = &w["expect"];
-    let Some(program) = law::prog(src) else { return CaseResult::trivial("rejected-by-compiler") };
+    let Some(program) = law::prog(src) else { return CaseResult::trivial(&rejection_class(src)) };
     let tz = vrlx::utc();
     // 1. the embedder's path
     let mut t1 = vrlx::target(event.clone(), vrlx::empty_object());
@@ -151,6 +174,11 @@ pub fn case(w: &J) -> CaseResult {
         // C08: whatever `ok, err =` stored must belong to the static type of the variable
         if prop == "C08" && want_class == "ok" {
             for (name, kind, _) in program.final_type_info().state.local.verif_bindings() {
+                // under the shared contexts only the targets of the infallible assignment itself are judged (the
+                // typing of what encloses it, e.g. map_keys, is C01's subject)
+                if w.get("context").is_some() && name.as_str() != "ok8" && name.as_str() != "err8" {
+                    continue;
+                }
                 let real = rs.variable(&Ident::new(name.as_str())).cloned().unwrap_or(Value::Null);
                 if !member_lenient(&real, &kind) {
                     push("stored-value-in-static-type", format!("variable {name} ∈ {kind}"), vv::show(&real));
@@ -227,6 +255,16 @@ fn expr_contexts() -> Vec<ExprCtx> {
         ("if-predicate", |e| m::if_else(m::bin("==", e, m::lit_i(1)), vec![m::lit_i(7)], vec![m::lit_i(8)])),
         ("if-branch", |e| m::if_else(m::bin("==", evp("d"), m::lit_b(true)), vec![e], vec![m::lit_i(0)])),
         ("else-branch", |e| m::if_else(m::bin("==", evp("d"), m::lit_b(true)), vec![m::lit_i(0)], vec![e])),
+        // optional (defaulted) parameters of stdlib functions, passed positionally
+        ("optional-argument-round", |e| m::call("round", vec![m::lit_i(7), e])),
+        ("optional-argument-contains", |e| m::call("contains", vec![m::lit_s("abc"), m::lit_s("B"), m::bin("==", e, m::lit_i(1))])),
+        ("optional-argument-replace", |e| m::call("length", vec![m::call("replace", vec![m::lit_s("aaa"), m::lit_s("a"), m::lit_s("bb"), e])])),
+        ("optional-argument-join", |e| m::call("length", vec![m::call("join", vec![P::Arr(vec![m::lit_s("a"), m::lit_s("b")]), m::call("to_string", vec![e])])])),
+        // the ordinary (non-closure) argument of closure-taking functions
+        ("closure-collection-array", |e| m::call("length", vec![P::Closure("map_values", Box::new(P::Arr(vec![e, m::lit_i(2)])), vec!["w".into()], vec![m::marker(7), m::var("w")])])),
+        ("closure-collection-object", |e| {
+            m::call("length", vec![P::Closure("filter", Box::new(P::Obj(vec![("a".into(), e), ("b".into(), m::lit_i(2))])), vec!["_k".into(), "w".into()], vec![m::bin("==", m::var("w"), m::lit_i(2))])])
+        }),
     ]
 }
 
@@ -413,7 +451,7 @@ pub fn run_c06(tier: Tier) -> Report {
         }
     }
     let _ = tier;
-    finish(&mut rep, &cases, &skipped, "all programs S(E1(E2(hole))) over 19 statement contexts × 18×18 expression contexts × return-holes (3 plain + 2 per-iteration inside closures) plus closure iteration-value programs, each on every event of the 10-event alphabet; a case is non-trivial when the real compiler accepts the program and the reference interpreter defines its outcome; distinct = distinct (program, event)");
+    finish(&mut rep, &cases, &skipped, "all programs S(E1(E2(hole))) over 19 statement contexts × 24×24 expression contexts (incl. optional stdlib parameters and the collection argument of closure functions) × return-holes (3 plain + 2 per-iteration inside closures) plus closure iteration-value programs, each on every event of the 10-event alphabet; a case is non-trivial when the real compiler accepts the program and the reference interpreter defines its outcome; distinct = distinct (program, event)");
     rep
 }
 
@@ -430,7 +468,7 @@ pub fn run_c07(tier: Tier) -> Report {
         vec![("if v == 2 { abort \"it\" }; 1", b(vec![m::if_(m::bin("==", m::var("v"), m::lit_i(2)), vec![P::Abort(Some(Box::new(m::lit_s("it"))))]), m::lit_i(1)]))];
     let cases = context_cases("C07", &holes, &closure_holes, true, &mut skipped);
     let _ = tier;
-    finish(&mut rep, &cases, &skipped, "all programs S(E1(E2(hole))) over 19 statement contexts × 18×18 expression contexts × abort-holes (4 plain + 1 per-iteration inside closures), each on every event of the 10-event alphabet; non-trivial = accepted by the real compiler and defined by the reference interpreter; distinct = distinct (program, event)");
+    finish(&mut rep, &cases, &skipped, "all programs S(E1(E2(hole))) over 19 statement contexts × 24×24 expression contexts (incl. optional stdlib parameters and the collection argument of closure functions) × abort-holes (4 plain + 1 per-iteration inside closures), each on every event of the 10-event alphabet; non-trivial = accepted by the real compiler and defined by the reference interpreter; distinct = distinct (program, event)");
     rep
 }
 
@@ -538,9 +576,164 @@ pub fn run_c08(tier: Tier) -> Report {
             }
         }
     }
-    let _ = tier;
-    finish(&mut rep, &cases, &skipped, "all programs `t = L ?? R`, `t = (L ?? R') ?? 99`, `ok, err = L` over 13 fallible left sides (int, string, bool, array, object, float results; with and without side effects), 6+2 right sides and 10 target shapes (variable, event path, variable path, `_`, pre-bound), each on every event of the 10-event alphabet; non-trivial = accepted and modelled; distinct = distinct (program, event)");
+    // the constructs as integer-valued holes under every statement context × expression context (× a second
+    // expression context in the thorough tier): what encloses a coalescing / infallible assignment must not matter
+    let c_holes: Vec<(&'static str, P)> = vec![
+        ("to_int(.s) ?? {m8; 0}", m::bin("??", to_int_s(), side(8, m::lit_i(0)))),
+        ("{.pre = 1; to_int(.s)} ?? 0", m::bin("??", b(vec![m::set(evt("pre"), m::lit_i(1)), to_int_s()]), m::lit_i(0))),
+        ("to_int(.s) ?? int(.n) ?? 7", m::bin("??", m::bin("??", to_int_s(), m::call("int", vec![evp("n")])), m::lit_i(7))),
+        (
+            "{ok8, err8 = to_int(.s); if err8 == null {ok8} else {-1}}",
+            b(vec![
+                P::SetErr(m::var_t("ok8"), m::var_t("err8"), Box::new(to_int_s())),
+                m::if_else(m::bin("==", m::var("err8"), m::null()), vec![m::var("ok8")], vec![m::lit_i(-1)]),
+            ]),
+        ),
+        (
+            "{.ok8, .err8 = int(.n); 1}",
+            b(vec![P::SetErr(evt("ok8"), evt("err8"), Box::new(m::call("int", vec![evp("n")]))), m::lit_i(1)]),
+        ),
+    ];
+    let closure_c_holes: Vec<(&'static str, P)> = vec![(
+        "to_int(v) ?? {m8; 0}",
+        m::bin("??", m::call("to_int", vec![m::var("v")]), side(8, m::lit_i(0))),
+    )];
+    cases.extend(context_cases("C08", &c_holes, &closure_c_holes, tier == Tier::Thorough, &mut skipped));
+    typed_defaults(&mut rep, tier);
+    finish(&mut rep, &cases, &skipped, "(plus 5+1 coalescing / infallible-assignment holes under 19 statement contexts × 24 expression contexts, ×24 again in the thorough tier) all programs `t = L ?? R`, `t = (L ?? R') ?? 99`, `ok, err = L` over 13 fallible left sides (int, string, bool, array, object, float results; with and without side effects), 6+2 right sides and 10 target shapes (variable, event path, variable path, `_`, pre-bound), each on every event of the 10-event alphabet; non-trivial = accepted and modelled; distinct = distinct (program, event)");
     rep
+}
+
+/// C08, model-free half: `ok8, err8 = F(.s)` for stdlib calls and literals whose declared type is a
+/// structured / exact one. Whatever the run stored in `ok8` and `err8` must belong to their reported types,
+/// exactly one of "err8 is null" / "err8 is a message and ok8 is the default of the right-hand side's type"
+/// holds, and a later read of a declared field of `ok8` sees a member of that field's reported type.
+fn typed_defaults(rep: &mut Report, tier: Tier) {
+    let rhs: Vec<&str> = vec![
+        "parse_url(.s)", "parse_common_log(.s)", "parse_syslog(.s)", "parse_regex(.s, r'(?P<a>\\d+)-(?P<b>\\w+)')",
+        "parse_regex_all(.s, r'(?P<a>\\d+)')", "parse_key_value(.s)", "parse_json(.s)", "parse_timestamp(.s, \"%s\")",
+        "parse_duration(.s, \"s\")", "parse_int(.s)", "parse_float(.s)", "to_bool(.s)", "to_int(.s)", "to_float(.s)",
+        "parse_tokens(.s)", "parse_csv(.s)", "parse_query_string(.s)", "parse_apache_log(.s, \"common\")",
+        "parse_nginx_log(.s, \"combined\")", "parse_glog(.s)", "parse_klog(.s)", "parse_linux_authorization(.s)",
+        "parse_aws_alb_log(.s)", "parse_aws_vpc_flow_log(.s)", "parse_cef(.s)", "parse_etld(.s)", "parse_user_agent(.s)",
+        "parse_logfmt(.s)", "parse_xml(.s)", "parse_yaml(.s)", "parse_grok(.s, \"%{INT:n} %{WORD:w}\")", "parse_bytes(.s)",
+        "parse_influxdb(.s)", "parse_ruby_hash(.s)", "split(.s, \"-\")", "slice(.s, 1)", "ip_aton(.s)", "ip_subnet(.s, \"/8\")",
+        "decode_base64(.s)", "from_unix_timestamp(.n)", "format_int(.n, 36)", "chunks(.s, 2)", "object(.o)", "array(.a)",
+        "string(.s)", "int(.n)", "timestamp(.t)", "{ \"a\": to_int(.s), \"b\": [1] }", "[to_int(.s), \"x\"]",
+        "{ \"a\": { \"b\": int(.n) } }", "merge({ \"a\": 1 }, object(.o))", "push([1], int(.n))", "10 / int(.n)", "to_int(.s) + 1",
+        "upcase(string(.s))", "{ x7 = int(.n); [x7] }", "if .c == true { { \"p\": int(.n) } } else { { \"q\": string(.s) } }",
+    ];
+    let events: Vec<J> = vec![
+        json!({}),
+        json!({"s": "x", "n": "x", "o": 1, "a": 1, "t": 1}),
+        json!({"s": "https://u:p@example.com:80/p?q=1#f", "n": 0, "o": {}, "a": [], "c": true}),
+        json!({"s": "127.0.0.1 bob frank [10/Oct/2000:13:55:36 -0700] \"GET /a HTTP/1.0\" 200 2326", "n": 5, "o": {"a": "z"}, "a": [1, "b"], "c": false}),
+        json!({"s": "<13>Feb 13 20:07:26 74794bfb6795 root[8539]: hi", "n": 1_600_000_000, "o": {"k": [1]}, "a": [{}]}),
+        json!({"s": "12-ab", "n": -7, "c": true}),
+        json!({"s": "a=1 b=\"two\"", "n": 2.5}),
+        json!({"s": "{\"a\": [1, {\"b\": null}]}", "n": true}),
+        json!({"s": "1", "n": 36}),
+        json!({"s": "10.0.0.1", "n": 9_223_372_036_854_775_807i64}),
+        json!({"s": "aGk=", "n": -9_223_372_036_854_775_807i64 - 1}),
+        json!({"s": "12 word", "n": 12}),
+        json!({"s": "1.5s", "n": 1}),
+        json!({"s": "", "n": null}),
+    ];
+    let mut cases: Vec<J> = Vec::new();
+    for r in &rhs {
+        for form in 0..3 {
+            let prog = match form {
+                0 => format!("ok8, err8 = {r}\n.after = 1"),
+                1 => format!(".ok8, .err8 = {r}\n.after = 1"),
+                _ => format!("ok8 = \"old\"\nerr8 = 7\nok8, err8 = {r}\nok8, err8 = {r}\n.after = 1"),
+            };
+            for e in &events {
+                cases.push(json!({"property": "C08", "program": prog, "event": e, "typed_default": true}));
+            }
+        }
+    }
+    let _ = tier;
+    rep.set("typed_default_right_hand_sides", rhs.len() as u64);
+    law::drive(rep, "typed-defaults", &cases, typed_default_case);
+}
+
+pub fn typed_default_case(w: &J) -> CaseResult {
+    let src = w["program"].as_str().unwrap_or("");
+    let event = vv::dec(&w["event"]);
+    let Some(program) = law::prog(src) else { return CaseResult::trivial("rejected-by-compiler") };
+    let tz = vrlx::utc();
+    let mut t = vrlx::target(event, vrlx::empty_object());
+    let mut rs = RuntimeState::default();
+    let o = match guarded(|| vrlx::run_program(&program, &mut t, &mut rs, &tz)) {
+        Ok(o) => o,
+        Err(p) => return CaseResult::ok("panic").violation(Violation::new("C08.panic", w.clone(), "no panic", p)),
+    };
+    if !o.success() {
+        return CaseResult::ok("typed-default:program-failed").violation(Violation::new(
+            "C08.infallible-assignment-failed",
+            w.clone(),
+            "`ok, err = e` never fails: the error is captured in err",
+            o.show(),
+        ));
+    }
+    let info = program.final_type_info();
+    let event_form = src.starts_with(".ok8");
+    let (okv, errv, okk, errk) = if event_form {
+        let get = |name: &str| match &t.value {
+            Value::Object(m) => m.get(name).cloned(),
+            _ => None,
+        };
+        let tk = info.state.external.target_kind().clone();
+        let field = |name: &str| tk.as_object().map(|c| c.known().get(&name.into()).cloned().unwrap_or_else(|| c.unknown_kind()));
+        (get("ok8"), get("err8"), field("ok8"), field("err8"))
+    } else {
+        let mut okk = None;
+        let mut errk = None;
+        for (name, kind, _) in info.state.local.verif_bindings() {
+            if name.as_str() == "ok8" {
+                okk = Some(kind);
+            } else if name.as_str() == "err8" {
+                errk = Some(kind);
+            }
+        }
+        (rs.variable(&Ident::new("ok8")).cloned(), rs.variable(&Ident::new("err8")).cloned(), okk, errk)
+    };
+    let okv = okv.unwrap_or(Value::Null);
+    let errv = errv.unwrap_or(Value::Null);
+    let failed = !matches!(errv, Value::Null);
+    let mut res = CaseResult::ok(if failed { "typed-default:failed→default" } else { "typed-default:succeeded" });
+    // on success the membership of the function's own result is C03's subject; C08 judges the stored default
+    if let Some(k) = okk.as_ref().filter(|_| failed) {
+        if !member_lenient(&okv, k) {
+            res.violations.push(Violation::new("C08.stored-value-in-static-type", w.clone(), format!("ok8 ∈ {k}"), vv::show(&okv)));
+        }
+    }
+    if let Some(k) = &errk {
+        if !member_lenient(&errv, k) {
+            res.violations.push(Violation::new("C08.stored-value-in-static-type", w.clone(), format!("err8 ∈ {k}"), vv::show(&errv)));
+        }
+    }
+    if failed {
+        if !matches!(errv, Value::Bytes(_)) {
+            res.violations.push(Violation::new("C08.err-is-message", w.clone(), "err is the error message (a string)".to_string(), vv::show(&errv)));
+        }
+        // the default of the type: an "empty" value (null, false, 0, 0.0, "", [], {}, epoch, empty regex)
+        let is_default = match &okv {
+            Value::Null => true,
+            Value::Boolean(b) => !b,
+            Value::Integer(i) => *i == 0,
+            Value::Float(f) => f.into_inner() == 0.0,
+            Value::Bytes(b) => b.is_empty(),
+            Value::Array(a) => a.is_empty(),
+            Value::Object(o) => o.is_empty(),
+            Value::Timestamp(ts) => ts.timestamp() == 0 && ts.timestamp_subsec_nanos() == 0,
+            Value::Regex(r) => r.as_str().is_empty(),
+        };
+        if !is_default {
+            res.violations.push(Violation::new("C08.ok-is-default-on-failure", w.clone(), "ok is the default value of the right-hand side's type".to_string(), vv::show(&okv)));
+        }
+    }
+    res
 }
 
 pub fn run_c09(tier: Tier) -> Report {
@@ -669,8 +862,24 @@ pub fn run_c09(tier: Tier) -> Report {
             }
         }
     }
-    let _ = tier;
-    finish(&mut rep, &cases, &skipped, "all programs `x = A op B`, `(A op B) op2 C`, `A op (B op2 C)` for op,op2 ∈ {||,&&} over 13 left operands (null, false, true, 0, \"\", [], {}, event fields, comparisons, side-effecting block) × 7 side-effecting right operands, and all if / else-if / else / nested-if programs over 9 predicates (incl. predicates with their own short-circuit side effects) with marker/assignment/del branches, each on every event of the 10-event alphabet; non-trivial = accepted and modelled; distinct = distinct (program, event)");
+    let s_holes: Vec<(&'static str, P)> = vec![
+        ("if (.c == true || {m8; .d == true}) {1} else {2}", m::if_else(m::bin("||", c_true(), side(8, m::bin("==", evp("d"), m::lit_b(true)))), vec![m::lit_i(1)], vec![m::lit_i(2)])),
+        ("if (.c == true && {m8; .d == true}) {1} else {2}", m::if_else(m::bin("&&", c_true(), side(8, m::bin("==", evp("d"), m::lit_b(true)))), vec![m::lit_i(1)], vec![m::lit_i(2)])),
+        (
+            "if .n == 2 {m8; 1} else if .c == true {m9; 2} else {3}",
+            P::If(
+                vec![(m::bin("==", evp("n"), m::lit_i(2)), vec![m::marker(8), m::lit_i(1)]), (c_true(), vec![m::marker(9), m::lit_i(2)])],
+                Some(vec![m::lit_i(3)]),
+            ),
+        ),
+        ("if (.missing || {m8; .c == true}) == true {1} else {2}", m::if_else(m::bin("==", m::bin("||", evp("missing"), side(8, c_true())), m::lit_b(true)), vec![m::lit_i(1)], vec![m::lit_i(2)])),
+    ];
+    let closure_s_holes: Vec<(&'static str, P)> = vec![(
+        "if (v == 1 || {m8; .d == true}) {1} else {2}",
+        m::if_else(m::bin("||", m::bin("==", m::var("v"), m::lit_i(1)), side(8, m::bin("==", evp("d"), m::lit_b(true)))), vec![m::lit_i(1)], vec![m::lit_i(2)]),
+    )];
+    cases.extend(context_cases("C09", &s_holes, &closure_s_holes, tier == Tier::Thorough, &mut skipped));
+    finish(&mut rep, &cases, &skipped, "(plus 4+1 short-circuit / conditional holes under 19 statement contexts × 24 expression contexts, ×24 again in the thorough tier) all programs `x = A op B`, `(A op B) op2 C`, `A op (B op2 C)` for op,op2 ∈ {||,&&} over 13 left operands (null, false, true, 0, \"\", [], {}, event fields, comparisons, side-effecting block) × 7 side-effecting right operands, and all if / else-if / else / nested-if programs over 9 predicates (incl. predicates with their own short-circuit side effects) with marker/assignment/del branches, each on every event of the 10-event alphabet; non-trivial = accepted and modelled; distinct = distinct (program, event)");
     rep
 }
 
@@ -792,8 +1001,32 @@ pub fn run_c13(tier: Tier) -> Report {
             }
         }
     }
-    let _ = tier;
-    finish(&mut rep, &cases, &skipped, "all programs calling for_each / filter / map_values / map_keys over {object, array} × {0,1,2 elements, event field} × 7 closure bodies (succeeds, fails on every / on the 2nd element, returns, aborts, assigns its parameter, nested closure reusing the names) × outer pre-binding of the parameter names {unset, bound} × handling {bare, `?? \"failed\"`, `ok, err =`}, each on every event of the 10-event alphabet; the oracle compares RuntimeState::variable(k/v) after the run with the reference interpreter (restored or unset); non-trivial = accepted and modelled; distinct = distinct (program, event)");
+    // closure calls as integer-valued holes under every statement context (including the bodies of OTHER closures
+    // binding the same names) × expression contexts: the enclosing k / v must be intact after the inner call
+    let n_holes: Vec<(&'static str, P)> = vec![
+        (
+            "{for_each([7,8]) -> |k, v| {.seen = v}; 1}",
+            b(vec![P::Closure("for_each", Box::new(P::Arr(vec![m::lit_i(7), m::lit_i(8)])), vec!["k".into(), "v".into()], vec![m::set(evt("seen"), m::var("v"))]), m::lit_i(1)]),
+        ),
+        (
+            "length(filter({\"p\": 1, \"q\": 2}) -> |k, v| {v == 2})",
+            m::call("length", vec![P::Closure("filter", Box::new(P::Obj(vec![("p".into(), m::lit_i(1)), ("q".into(), m::lit_i(2))])), vec!["k".into(), "v".into()], vec![m::bin("==", m::var("v"), m::lit_i(2))])]),
+        ),
+        (
+            "{x = map_values([7]) -> |v| {v = 5; v}; 1}",
+            b(vec![m::set(m::var_t("x"), P::Closure("map_values", Box::new(P::Arr(vec![m::lit_i(7)])), vec!["v".into()], vec![m::set(m::var_t("v"), m::lit_i(5)), m::var("v")])), m::lit_i(1)]),
+        ),
+    ];
+    let closure_n_holes: Vec<(&'static str, P)> = vec![(
+        "{for_each([7]) -> |k, v| {.seen = v}; .outer = [k, v]; 1}",
+        b(vec![
+            P::Closure("for_each", Box::new(P::Arr(vec![m::lit_i(7)])), vec!["k".into(), "v".into()], vec![m::set(evt("seen"), m::var("v"))]),
+            m::set(evt("outer"), P::Arr(vec![m::var("k"), m::var("v")])),
+            m::lit_i(1),
+        ]),
+    )];
+    cases.extend(context_cases("C13", &n_holes, &closure_n_holes, tier == Tier::Thorough, &mut skipped));
+    finish(&mut rep, &cases, &skipped, "(plus 3+1 closure-call holes under 19 statement contexts × 24 expression contexts, ×24 again in the thorough tier) all programs calling for_each / filter / map_values / map_keys over {object, array} × {0,1,2 elements, event field} × 7 closure bodies (succeeds, fails on every / on the 2nd element, returns, aborts, assigns its parameter, nested closure reusing the names) × outer pre-binding of the parameter names {unset, bound} × handling {bare, `?? \"failed\"`, `ok, err =`}, each on every event of the 10-event alphabet; the oracle compares RuntimeState::variable(k/v) after the run with the reference interpreter (restored or unset); non-trivial = accepted and modelled; distinct = distinct (program, event)");
     rep
 }
 
@@ -807,5 +1040,8 @@ fn fname_static(n: &str) -> &'static str {
 }
 
 pub fn replay(_property: &str, w: &J) -> Vec<Violation> {
+    if w.get("typed_default").is_some() {
+        return typed_default_case(w).violations;
+    }
     case(w).violations
 }
